@@ -25,7 +25,7 @@ func symPropCode(tag string) int {
 	case 3:
 		return 500
 	}
-	c := vrt.Int(tag + "-code")
+	c := vrt.IntRange(tag+"-code", 100, 999)
 	vrt.Assume(c != 200)
 	return c
 }
@@ -170,7 +170,7 @@ func VerifH_C14_Mutations() {
 			ms = &internal.MultiStatus{}
 			n := vrt.Choose("members", 3)
 			for i := 0; i < n; i++ {
-				code := vrt.Int("member-status")
+				code := vrt.IntRange("member-status", 100, 999)
 				ms.Responses = append(ms.Responses, internal.Response{Hrefs: []internal.Href{{Path: "/dav/d/" + string(rune('a'+i))}}, Status: &internal.Status{Code: code}})
 				if (code < 200 || code > 299) && !memberFailed {
 					memberFailed = true
